@@ -775,8 +775,26 @@ fn gen_case(batch: &str, _index: u64, seed: u64) -> Case {
     let n = if pr.chance(0.5) { pr.usize_in(4, 30) } else { pr.usize_in(4, 120) };
     let p = pr.usize_in(1, 6);
     let lattice = r.chance(0.35);
+    // lattices: 0..4, centred (-2..2), sign-coded (-1 / +1) and half-steps around zero: thresholds between
+    // neighbouring values can be exactly 0.0
+    let lat_kind = r.below(4);
     let mut x: Vec<Vec<f64>> = (0..n)
-        .map(|_| (0..p).map(|_| if lattice { r.below(5) as f64 } else { r.range(-3.0, 3.0) }).collect())
+        .map(|_| {
+            (0..p)
+                .map(|_| {
+                    if lattice {
+                        match lat_kind {
+                            0 => r.below(5) as f64,
+                            1 => r.below(5) as f64 - 2.0,
+                            2 => if r.chance(0.5) { -1.0 } else { 1.0 },
+                            _ => 0.5 * (r.below(6) as f64) - 1.25,
+                        }
+                    } else {
+                        r.range(-3.0, 3.0)
+                    }
+                })
+                .collect()
+        })
         .collect();
     // negative zero is a legal feature value that compares equal to zero
     if lattice && r.chance(0.1) {
